@@ -314,6 +314,31 @@ def run(ctx: Any, prog: Program) -> None:
             n_store += 1
             ctx.check('C08.D4', mname == '__setitem__', vm, direct, f'Entity.{mname} stores keyvalues with `{U(direct)[:60]}`, bypassing __setitem__: a `nodeid` among them is kept verbatim and never reserved in '
                       'VMF.node_id, so a copy shares its node id with the original (and releases it when it is collected)', func=f'Entity.{mname}', text=f'Entity.{mname}: key store written directly')
+    # the reservation follows the *key*: storing `nodeid` reserves, deleting it (or the entity dying) releases.  A further condition on the
+    # entity's other state (its classname at that moment) un-pairs the two - keys arrive in any order, so the number is stored before the
+    # classname is known and never reserved, but released when the entity dies
+    n_gate = 0
+    for mname in ('__setitem__', '__delitem__', '__del__'):
+        mfn = vm.methods('Entity').get(mname)
+        if mfn is None:
+            continue
+        me_ = mfn.args.args[0].arg
+        for t_ in [x for x in walk_no_nested(mfn) if isinstance(x, ast.If)]:
+            nodeid_cmp = [c for c in ast.walk(t_.test) if isinstance(c, ast.Compare) and any(isinstance(k_, ast.Constant) and k_.value == 'nodeid' for k_ in [c.left] + c.comparators)]
+            if not nodeid_cmp:
+                continue
+            n_gate += 1
+            state_reads = [x for x in ast.walk(t_.test) if (isinstance(x, ast.Attribute) or isinstance(x, ast.Subscript)) and isinstance(x.value, ast.Name) and x.value.id == me_ and not any(x is y for c in nodeid_cmp for y in ast.walk(c))]
+            state_reads += [x for x in ast.walk(t_.test) if isinstance(x, ast.Call) and isinstance(x.func, ast.Attribute) and isinstance(x.func.value, ast.Name) and x.func.value.id == me_]
+            ctx.check('C08.D4', not state_reads, vm, t_, f'Entity.{mname} handles the node id only when `{U(t_.test)[:70]}`: besides the key this looks at the entity itself (`{U(state_reads[0])[:40] if state_reads else ""}`), '
+                      'which can differ between the moment the id is stored and the moment it is released', func=f'Entity.{mname}', text=f'Entity.{mname}: node id handling keyed on the key alone')
+        if mname == '__del__':
+            # nothing decides about the release before it happens
+            rel = next((i for i, st_ in enumerate(mfn.body) if any(isinstance(k_, ast.Constant) and k_.value == 'nodeid' for k_ in ast.walk(st_))), None)
+            early = [r for st_ in mfn.body[:rel or 0] for r in ast.walk(st_) if isinstance(r, ast.Return)]
+            ctx.check('C08.D4', not early, vm, early[0] if early else mfn, 'Entity.__del__ can return before it releases the node id, depending on the state of the entity at that moment', func='Entity.__del__',
+                      text='Entity.__del__: node id release unconditional')
+    ctx.shape('C08.D4', n_gate >= 1, vm, vm.cls('Entity'), 'tests on the key `nodeid` found in Entity.__setitem__ / __delitem__', func='Entity', text='node id handling sites')
     if n_store < 2:
         raise AnalysisError(f'only {n_store} direct key-store writes found in Entity (the two arms of __setitem__ confirmed by hand)')
     if n_acq < 2:
@@ -455,6 +480,7 @@ def run(ctx: Any, prog: Program) -> None:
 
 
 MUTANTS = [
+    {'id': 'nodeid_only_for_node_classes', 'file': 'vmf.py', 'find': "        elif key_fold == 'nodeid':\n", 'replace': "        elif key_fold == 'nodeid' and self['classname'].casefold().startswith('info_node'):\n", 'expect': 'C08.D4'},
     {'id': 'fixup_update_imports_foreign_indexes', 'file': 'vmf.py', 'find': "    @overload\n    def setdefault(self, var: str, /, default: str = ...) -> str: ...", 'replace': "    def update(self, other: Any = (), /, **kwargs: ValidKVs) -> None:  # type: ignore[override]\n        if isinstance(other, EntityFixup) and self._fixup.keys().isdisjoint(other._fixup):\n            for folded_var, fix in other._fixup.items():\n                self._fixup[folded_var] = FixupValue(fix.var, fix.value, fix.id)\n            self._matcher = None\n            other = ()\n        super().update(other, **kwargs)\n\n    @overload\n    def setdefault(self, var: str, /, default: str = ...) -> str: ...", 'expect': 'C08.D5'},
     {'id': 'setdefault_index_from_len', 'file': 'vmf.py', 'find': "            self[folded_var] = default\n            return default", 'replace': "            self._fixup[folded_var] = FixupValue(intern(var), conv_kv(default), len(self._fixup) + 1)\n            self._matcher = None\n            return default", 'expect': 'C08.D5'},
     {'id': 'ok_fixup_index_above_max', 'file': 'vmf.py', 'find': "            ind = 1\n            while ind in indexes:\n                ind += 1", 'replace': "            ind = max(max(indexes, default=0), 0) + 1", 'expect': None, 'refuse_ok': True},
